@@ -1,7 +1,105 @@
-(* C10 — HDF5 files preserve the complete state of a field. *)
+(* C10 — HDF5 files preserve the complete state of a field.
+   ONLY statements, each closed by [exact] of a lemma proved in proofs/C10_hdf5.v, followed by
+   Print Assumptions.  The payload type V is arbitrary (the writer and the reader never compute
+   with values); [conv] is what Field.__init__ does to a non-float real payload on the way back
+   (astype float64).  [fstate] is the complete state: region corners with their int/float tag,
+   dims, units, tolerance factor, n, bc, subregions (ordered, with corners and attributes),
+   nvdim, labels, unit, data kind, values, validity. *)
 From DF Require Import Prelude Region Mesh Hdf5 C10_hdf5.
 Open Scope Q_scope.
 
-Theorem C10_int_payload_exact (z : Z) : (Z.abs z < 2 ^ 53)%Z -> round_f64 z = z.
-Proof. exact (round_f64_small z). Qed.
+(* read (write f) is f up to the two representation changes collected in [canon]: subregion
+   corners carry the dtype of the table, integer payloads have become float64 *)
+Theorem C10_roundtrip : forall (V : Type) (conv : V -> V) (f : fstate V),
+  wf_field f -> f_unit f <> Some none_marker ->
+  decode conv (NewFile (encode f)) = OK (canon conv f).
+Proof. exact (@roundtrip). Qed.
+Print Assumptions C10_roundtrip.
+
+(* attribute by attribute: everything the property lists comes back identical, for every
+   dimension count, component count, corner typing and payload kind; values are untouched
+   unless they are integers, and then they are untouched whenever float64 holds them *)
+Theorem C10_roundtrip_state : forall (V : Type) (conv : V -> V) (f : fstate V),
+  wf_field f -> f_unit f <> Some none_marker ->
+  (f_dk f = DInt -> Forall (fun v => conv v = v) (f_vals f)) ->
+  exists g, decode conv (NewFile (encode f)) = OK g /\
+    f_ck g = f_ck f /\ f_mesh g = f_mesh f /\ f_nvdim g = f_nvdim f /\ f_vdims g = f_vdims f /\
+    f_unit g = f_unit f /\ f_vals g = f_vals f /\ f_valid g = f_valid f /\
+    is_complex (f_dk g) = is_complex (f_dk f) /\ (f_dk f <> DInt -> f_dk g = f_dk f).
+Proof. exact (@roundtrip_state). Qed.
+Print Assumptions C10_roundtrip_state.
+
+Example C10_roundtrip_nonvacuous :
+  wf_field w_rich /\ f_unit w_rich <> Some none_marker /\ f_ck w_rich = KInt /\
+  f_subk w_rich = [KInt; KFloat] /\ f_dk w_rich = DComplex.
+Proof. exact w_rich_nonvacuous. Qed.
+Print Assumptions C10_roundtrip_nonvacuous.
+
+(* integers up to 2^53 in magnitude survive the float64 conversion of the reader *)
+Theorem C10_int_payload_exact : forall z : Z, (Z.abs z <= 2 ^ 53)%Z -> round_f64 z = z.
+Proof. exact round_f64_exact. Qed.
 Print Assumptions C10_int_payload_exact.
+
+(* the subregion table holds every corner exactly, whatever mix of integer- and float-typed
+   region and subregion corners: its dtype is the join over all of them *)
+Theorem C10_table_exact : forall (V : Type) (f : fstate V),
+  wf_field f -> subs (f_mesh f) <> [] ->
+  h_subs (encode f) =
+  Some (map fst (subs (f_mesh f)),
+        (table_kind (f_ck f) (f_subk f),
+         map (fun s => pmin (snd s) ++ pmax (snd s)) (subs (f_mesh f)))).
+Proof. exact (@table_exact). Qed.
+Print Assumptions C10_table_exact.
+
+(* … whereas a table typed after the region corners alone would turn 0.5 into 0 *)
+Theorem C10_region_typed_table_truncates : cast KInt (1 # 2) == 0 /\ ~ cast KInt (1 # 2) == (1 # 2).
+Proof. exact region_typed_table_truncates. Qed.
+Print Assumptions C10_region_typed_table_truncates.
+
+(* files in the legacy layout are read: corners in any order, default names / units /
+   tolerance, no boundary condition, default labels, no unit, everything valid, the payload
+   as stored (integers widened), subregions from the json side-car when there is one *)
+Theorem C10_legacy : forall (V : Type) (conv : V -> V) (l : h5legacy V),
+  Forall2 (fun a b => ~ a == b) (l_p1 l) (l_p2 l) -> (0 < length (l_p1 l))%nat ->
+  length (l_n l) = length (l_p1 l) -> Forall (fun k => 0 < k)%Z (l_n l) ->
+  (1 <= l_dim l)%Z -> l_shape l = l_n l ++ [l_dim l] ->
+  match l_side l with None => True | Some items => Forall (wf_side (length (l_p1 l))) items end ->
+  let r := legacy_region (l_p1 l) (l_p2 l) in
+  decode conv (LegacyFile l) =
+  OK (mkF (kjoin (l_ck1 l) (l_ck2 l))
+          (mkMesh r (l_n l) "" (legacy_subs r (l_side l)))
+          (match l_side l with None => [] | Some items => map sd_ck items end)
+          (l_dim l) (default_vdims (l_dim l)) None (conv_dk (l_dk l))
+          (conv_vals conv (l_dk l) (l_arr l))
+          (repeat true (Z.to_nat (zprod (l_n l))))).
+Proof. exact (@legacy_read). Qed.
+Print Assumptions C10_legacy.
+
+(* the pmin/pmax keyword path of Region.__init__ rejects corners that are not strictly ordered *)
+Theorem C10_reader_rejects_unordered : forall (lo hi : list Q) ds us t,
+  length lo = length hi -> forallb2 Qltb lo hi = false -> mk_region_minmax lo hi ds us t = Err ValueE.
+Proof. exact mk_region_minmax_unordered. Qed.
+Print Assumptions C10_reader_rejects_unordered.
+
+(* ---- the guards of C10_roundtrip_state are necessary: witnesses on the faithful model ---- *)
+(* without "unit is not the text None": the marker written for a missing unit collides *)
+Theorem C10_roundtrip_unit_marker_refuted :
+  exists f : fstate Z, wf_field f /\
+    exists g, decode round_f64 (NewFile (encode f)) = OK g /\ f_unit g <> f_unit f.
+Proof. exact marker_refuted. Qed.
+Print Assumptions C10_roundtrip_unit_marker_refuted.
+
+(* without "integer payloads fit float64": 2^53 + 1 comes back as 2^53 *)
+Theorem C10_roundtrip_int_beyond_2p53_refuted :
+  exists f : fstate Z, wf_field f /\ f_unit f <> Some none_marker /\
+    exists g, decode round_f64 (NewFile (encode f)) = OK g /\ f_vals g <> f_vals f.
+Proof. exact bigint_refuted. Qed.
+Print Assumptions C10_roundtrip_int_beyond_2p53_refuted.
+
+(* without "labels are absent only on scalar fields" (part of wf_field): a label-less
+   3-vector comes back labelled x, y, z *)
+Theorem C10_roundtrip_absent_labels_refuted :
+  exists f : fstate Z, f_vdims f = None /\ f_nvdim f = 3%Z /\
+    exists g, decode round_f64 (NewFile (encode f)) = OK g /\ f_vdims g = Some ["x"; "y"; "z"]%string.
+Proof. exact nolabels_refuted. Qed.
+Print Assumptions C10_roundtrip_absent_labels_refuted.
